@@ -89,6 +89,8 @@ def check(run, driver):
             return real[name](*a, **k)
         return w
 
+    from common import call_form
+    _form = [0]
     ks = [1, 2, 5, None]
     metrics = ["euclidean", "cityblock", "chebyshev"]
     bws = ["silverman", "scott", 0.5]
@@ -131,7 +133,8 @@ def check(run, driver):
                 try:
                     with warnings.catch_warnings():
                         warnings.simplefilter("ignore")
-                        got = M.conditional_mutual_information(*a, method=name, **st)
+                        _form[0] += 1      # every documented call form in turn
+                        got = call_form(M.conditional_mutual_information, "conditional_mutual_information", _form[0], X=a[0], Y=a[1], Z=a[2], method=name, **st)
                 except Exception as e:  # noqa
                     got = e
                 finally:
